@@ -147,13 +147,24 @@ class Report:
                                   f"by the bounded search")
 
     def _is_known(self, name, native=None):
+        """A recorded finding suppresses exactly what it lists: an obligation by name, a bounded witness by its exact id
+        (entry `witnesses`, failure field `witness`) within its class (`witness_class` == failure `key`), or - only for classes
+        whose every witness is one fixed input - the class key itself (entry `witness`)."""
         for k in self.known:
             if k.get("obligation") and k["obligation"] == name:
-                self.known_hits.append(k)
+                if k not in self.known_hits:
+                    self.known_hits.append(k)
                 return True
-            if native is not None and k.get("witness") and k["witness"] == native.get("key"):
-                self.known_hits.append(k)
-                return True
+            if native is not None:
+                if k.get("witnesses") is not None and k.get("witness_class") == native.get("key") \
+                        and native.get("witness") in k["witnesses"]:
+                    if k not in self.known_hits:
+                        self.known_hits.append(k)
+                    return True
+                if k.get("witness") and k.get("witnesses") is None and k["witness"] == native.get("key"):
+                    if k not in self.known_hits:
+                        self.known_hits.append(k)
+                    return True
         return False
 
     # ---------------------------------------------------------------- bounded part
@@ -168,10 +179,11 @@ class Report:
         seen = set()
         for f in failures:
             key = f.get("key") or f.get("failure", "")[:80]
-            if key in seen:
+            ident = (key, f.get("witness"))
+            if ident in seen:
                 continue
-            seen.add(key)
-            if self._is_known(None, {"key": key}):
+            seen.add(ident)
+            if self._is_known(None, dict(f, key=key)):
                 continue
             if len([v for v in self.violations if v.get("bounded")]) < 5:
                 self.violations.append({"what": f"bounded:{name}:{key}", "native": f, "bounded": True, "suffix": ""})
